@@ -21,7 +21,7 @@ RULES = {
     'R3': 'per-network constant tables and dispatch of get_next_target',
     'R4': 'walk-back predicate of find_next_difficulty_in_chain',
     'R5': 'retarget inputs of compute_next_difficulty (interval test, base bits, timespan)',
-    'R6': 'HeaderStore semantics of the canister\'s ValidationContext',
+    'R6': 'HeaderStore semantics of the canister\'s ValidationContext; initial hash = trait default (genesis), not overridden',
 }
 ASSUMPTIONS = ['bitcoin crate: Header::validate_pow, Header::target, Target::from_compact, CompactTarget::from_next_work_required (4x clamp) are correct']
 
